@@ -36,7 +36,7 @@ var c18Scales = []float64{1, -1, 255, 1e-6, 1e6, -3.7e3, 1e-3, 1e3}
 func (e *C18) ID() string    { return "C18" }
 func (e *C18) Level() string { return "exploration" }
 func (e *C18) Rule() string {
-	return "sections: (0) self-test of the guard-page sanitizer (a deliberately over-long operand must fault); (A, exhaustive) every unit impulse of the 64- and 256-point kernels at 8 signed scales over 12 decades, and every one of the 4096 unit impulses of the 64x64 2-D kernel; (B) edge vectors (constant, alternating, ramps, steps, extremes, pixel-like integers, zero, signed zeros, subnormal constants / ramps / impulses, normal entries with subnormal differences); (C) seeded random vectors (uniform, normal, 0..255 integers, sparse, smooth) at scales 1e-6..1e6 (a tenth of them at 1e-45..1e-36, where float32 underflows gradually) in batches of 200; (D) random and image-like 64x64 inputs for the 2-D kernel; (E) dispatch (also: the exported ForwardDCT64/256 on slices shorter than the transform, flush against the guard page - they may panic, not reach behind the slice): exported DCT2DHash64/DCT2DHash256 and NewPHash64Alt/NewPHash256Alt with FlagUseASM / ForwardDCT64 / ForwardDCT256 switched between the assembly and the portable kernels. Oracle per vector: bits(asm(x)) == bits(go(x)) in every lane, with the assembly operand placed flush against a PROT_NONE page (end placement and start placement alternate; the 16 KiB 2-D operand is flush on both sides; every third or fourth operand is only 4-byte aligned, 4..12 bytes from the guard page) and the canary slack re-checked; |go(x)-DCTII(x)|_inf <= 1e-5*||x||_1 against a direct O(N^2) float64 DCT-II (2.5e-5 for the two-pass 2-D kernel; asserted where the mean magnitude is at least 1e-30, below that results are subnormal and only bit-equality is asserted); float64 kernels within 1e-12*||x||_1. Non-trivial: a non-zero vector; distinct = distinct (kernel, family, scale decade, placement)."
+	return "sections: (0) self-test of the guard-page sanitizer (a deliberately over-long operand must fault); (A, exhaustive) every unit impulse of the 64- and 256-point kernels at 8 signed scales over 12 decades, and every one of the 4096 unit impulses of the 64x64 2-D kernel; (B) edge vectors (constant, alternating, ramps, steps, extremes, pixel-like integers, zero, signed zeros, infinities (flat, single, same-sign and opposite-sign pairs at mirror positions; NaN lanes compare as NaN), subnormal constants / ramps / impulses, normal entries with subnormal differences); (C) seeded random vectors (uniform, normal, 0..255 integers, sparse, smooth) at scales 1e-6..1e6 (a tenth of them at 1e-45..1e-36, where float32 underflows gradually) in batches of 200; (D) random and image-like 64x64 inputs for the 2-D kernel; (E) dispatch (also: the exported ForwardDCT64/256 on slices shorter than the transform, flush against the guard page - they may panic, not reach behind the slice): exported DCT2DHash64/DCT2DHash256 and NewPHash64Alt/NewPHash256Alt with FlagUseASM / ForwardDCT64 / ForwardDCT256 switched between the assembly and the portable kernels. Oracle per vector: bits(asm(x)) == bits(go(x)) in every lane, with the assembly operand placed flush against a PROT_NONE page (end placement and start placement alternate; the 16 KiB 2-D operand is flush on both sides; every third or fourth operand is only 4-byte aligned, 4..12 bytes from the guard page) and the canary slack re-checked; |go(x)-DCTII(x)|_inf <= 1e-5*||x||_1 against a direct O(N^2) float64 DCT-II (2.5e-5 for the two-pass 2-D kernel; asserted where the mean magnitude is at least 1e-30, below that results are subnormal and only bit-equality is asserted); float64 kernels within 1e-12*||x||_1. Non-trivial: a non-zero vector; distinct = distinct (kernel, family, scale decade, placement)."
 }
 func (e *C18) Assumptions() []string {
 	return []string{
@@ -71,6 +71,11 @@ func (e *C18) InitWorker(c *core.Ctx) {
 func bitsEq32(a, b []float32) int {
 	for i := range a {
 		if math.Float32bits(a[i]) != math.Float32bits(b[i]) {
+			if a[i] != a[i] && b[i] != b[i] {
+				// both NaN (only the infinite edge vectors produce any): which payload and sign a
+				// NaN carries depends on operand order, not on the transform; "is NaN" is the value
+				continue
+			}
 			return i
 		}
 	}
@@ -472,6 +477,41 @@ func c18EdgeVectors(n int) (out [][]float32, names []string) {
 		return 7e-41 * float64(i%5)
 	})
 	add("pixels-scaled-2^-140", func(i int) float64 { return float64((i*37)%256) * math.Ldexp(1, -140) })
+	// infinities (a saturated sensor value converted carelessly, a division upstream): Inf - Inf
+	// is NaN in every kernel alike; a kernel that skips an operation "because the operands are
+	// equal" is not the same function
+	inf := math.Inf(1)
+	add("inf-flat", func(i int) float64 { return inf })
+	add("inf-one", func(i int) float64 {
+		if i == 5 {
+			return inf
+		}
+		return float64(i % 7)
+	})
+	for _, pos := range [][2]int{{3, n - 4}, {3, 60}, {10, 53}, {0, n - 1}, {31, 32}, {n/2 - 1, n / 2}} {
+		pos := pos
+		add(fmt.Sprintf("inf-pair-%d-%d", pos[0], pos[1]), func(i int) float64 {
+			if i == pos[0] || i == pos[1] {
+				return inf
+			}
+			return float64((i * 37) % 256)
+		})
+		add(fmt.Sprintf("neginf-pair-%d-%d", pos[0], pos[1]), func(i int) float64 {
+			if i == pos[0] || i == pos[1] {
+				return -inf
+			}
+			return float64((i * 37) % 256)
+		})
+		add(fmt.Sprintf("inf-opposite-%d-%d", pos[0], pos[1]), func(i int) float64 {
+			if i == pos[0] {
+				return inf
+			}
+			if i == pos[1] {
+				return -inf
+			}
+			return 1
+		})
+	}
 	add("zero", func(i int) float64 { return 0 })
 	add("max255", func(i int) float64 { return 255 })
 	add("checker8", func(i int) float64 {
@@ -705,5 +745,21 @@ func (e *C18) dispatch(c *core.Ctx, r *core.Rng) {
 			c.Rec.Violation("short:"+k.name, fmt.Sprintf("%s on a slice of %d floats wrote outside its argument (canary changed)", k.name, short), map[string]any{"kernel": k.name, "len": short})
 		}
 		g.Free()
+		// the same with spare capacity behind the short slice (a sub-slice of a larger or pooled
+		// buffer): a slice expression would extend it silently - what lies behind its length is not
+		// the argument either
+		back := make([]float32, 2*k.n)
+		for i := range back {
+			back[i] = float32(1000 + i)
+		}
+		ft = mon.CatchFault(func() { k.f(back[:short]) })
+		c.Rec.Eval(1)
+		c.Rec.Count("short_operand_calls", 1)
+		for i := short; i < len(back); i++ {
+			if back[i] != float32(1000+i) {
+				c.Rec.Violation("short:cap:"+k.name, fmt.Sprintf("%s on a slice of %d floats with capacity %d wrote element %d, outside its argument (%v -> %v)", k.name, short, len(back), i, float32(1000+i), back[i]), map[string]any{"kernel": k.name, "len": short, "cap": len(back), "index": i})
+				break
+			}
+		}
 	}
 }
